@@ -284,7 +284,7 @@ class Run:
         self._distinct.add(key)
 
     def finish(self):
-        known = json.load(open(KNOWN)) if os.path.exists(KNOWN) else {"findings": [], "fixed": []}
+        known = load_known()
         mine = [k for k in known.get("findings", []) if k["property"] == self.prop]
         hit = {}
         viol = []
@@ -326,6 +326,17 @@ class Run:
         os.makedirs(EVID, exist_ok=True)
         with open(os.path.join(EVID, self.prop + ".json"), "w") as f:
             json.dump(ev, f, indent=1)
+
+
+def load_known():
+    """known_findings.json plus per-property files known_findings.d/*.json (same shape)."""
+    import glob
+    known = json.load(open(KNOWN)) if os.path.exists(KNOWN) else {"findings": [], "fixed": []}
+    for f in sorted(glob.glob(os.path.join(ROOT, "known_findings.d", "*.json"))):
+        k = json.load(open(f))
+        known["findings"] += k.get("findings", [])
+        known["fixed"] += k.get("fixed", [])
+    return known
 
 
 def obs_kind(m):
